@@ -19,24 +19,53 @@ Open Scope Z_scope.
 
 (* Any protocol tag (4 bytes), any DC id, any secret, any random stream: if the client
    handshake succeeds, then on every stream that starts with the header it wrote the server
-   recovers the same tag and uint16(dc), derives the same four key/iv values, and continues
-   after the 64 header bytes. *)
+   recovers the same tag and uint16(dc) and continues after the 64 header bytes; the server's
+   decrypt stream IS the client's encrypt stream -- same key, same iv, same position (64: both
+   sides ran the 64 header bytes through it) -- and its encrypt stream is the client's decrypt
+   stream (position 0).  The positions are computed by the model (XORKeyStream advances the
+   stream by the length of its argument), not assumed. *)
 Theorem C18_meta :
   forall (ks : bytes -> bytes -> Z -> Z) (sha256 : bytes -> bytes)
-         (fuel : nat) (rnd protocol : bytes) (dc : Z) (secret hdr : bytes) (k : keys) (rest t : bytes),
+         (fuel : nat) (rnd protocol : bytes) (dc : Z) (secret hdr : bytes) (cep : endpoint) (rest t : bytes),
     length protocol = 4%nat ->
-    client_handshake ks sha256 fuel rnd protocol dc secret = Ok (hdr, k, rest) ->
-    server_accept ks sha256 (hdr ++ t) secret = Ok ((protocol, dc mod 65536), k, t).
-Proof. intros ks sha fuel rnd p dc s hdr k rest t Hp H. exact (proj1 (handshake_accept ks sha fuel rnd p dc s hdr k rest t Hp H)). Qed.
+    client_handshake ks sha256 fuel rnd protocol dc secret = Ok (hdr, cep, rest) ->
+    server_accept ks sha256 (hdr ++ t) secret =
+      Ok ((protocol, dc mod 65536), {| enc := dec cep; dec := enc cep |}, t) /\
+    s_pos (enc cep) = 64 /\ s_pos (dec cep) = 0.
+Proof.
+  intros ks sha fuel rnd p dc s hdr cep rest t Hp H.
+  destruct (handshake_accept ks sha fuel rnd p dc s hdr cep rest t Hp H) as (A & B & C & _). auto.
+Qed.
 Print Assumptions C18_meta.
+
+(* The whole session, composed: after Handshake and Accept (on the header followed by whatever
+   the client wrote), with the stream states each side actually holds, data written by the
+   client in any number of Write calls and delivered to the server in any pieces (an error may
+   accompany the last one) is read unchanged, and likewise from the server to the client.
+   Premise of the model of Write: every conn.Write completes (see level_note). *)
+Theorem C18_session :
+  forall (ks : bytes -> bytes -> Z -> Z) (sha256 : bytes -> bytes)
+         (fuel : nat) (rnd protocol : bytes) (dc : Z) (secret hdr : bytes) (cep : endpoint) (rest : bytes)
+         (c2s s2c : list bytes) (dl_s dl_c : list (bytes * bool)),
+    length protocol = 4%nat ->
+    client_handshake ks sha256 fuel rnd protocol dc secret = Ok (hdr, cep, rest) ->
+    let wire := send_on ks (enc cep) c2s in
+    exists sep,
+      server_accept ks sha256 (hdr ++ wire) secret = Ok ((protocol, dc mod 65536), sep, wire) /\
+      dec sep = enc cep /\ enc sep = dec cep /\
+      (concat (map fst dl_s) = wire -> err_only_last dl_s -> recv_on ks (dec sep) dl_s = concat c2s) /\
+      (concat (map fst dl_c) = send_on ks (enc sep) s2c -> err_only_last dl_c ->
+       recv_on ks (dec cep) dl_c = concat s2c).
+Proof. intros ks sha fuel rnd p dc s hdr cep rest c2s s2c dls dlc. apply session_roundtrip. Qed.
+Print Assumptions C18_session.
 
 (* negative and test DC ids survive the uint16 field: int16(meta.DC) = dc *)
 Theorem C18_dc_signed : forall dc, - 32768 <= dc < 32768 -> to_signed 16 (dc mod 65536) = dc.
 Proof. intros dc H. change 65536 with (2 ^ 16). apply (to_of_signed 16 dc); [reflexivity|exact H]. Qed.
 Print Assumptions C18_dc_signed.
 
-(* Either direction (key, iv and starting position are those both sides hold after the
-   handshake: (ek, eiv) from 64 for client->server, (dk, div) from 0 for server->client), any
+(* The stream lemma used by C18_session, for any one (key, iv, position) shared by a sender and
+   a receiver: any
    list of Write calls, any way the underlying reader cuts the ciphertext into deliveries, an
    error allowed to accompany the last delivery: the bytes received are the bytes sent. *)
 Theorem C18_streams :
@@ -54,15 +83,18 @@ Print Assumptions C18_streams.
    the source). *)
 Theorem C18_prefix :
   forall (ks : bytes -> bytes -> Z -> Z) (sha256 : bytes -> bytes)
-         (fuel : nat) (rnd protocol : bytes) (dc : Z) (secret hdr : bytes) (k : keys) (rest : bytes),
+         (fuel : nat) (rnd protocol : bytes) (dc : Z) (secret hdr : bytes) (cep : endpoint) (rest : bytes),
     length protocol = 4%nat ->
-    client_handshake ks sha256 fuel rnd protocol dc secret = Ok (hdr, k, rest) ->
+    client_handshake ks sha256 fuel rnd protocol dc secret = Ok (hdr, cep, rest) ->
     length hdr = 64%nat /\ acceptable hdr = true /\
     exists init skipped,
       rnd = concat skipped ++ init ++ rest /\
       Forall (fun c => length c = 64%nat /\ acceptable c = false) skipped /\
       length init = 64%nat /\ firstn 56 hdr = firstn 56 init.
-Proof. intros ks sha fuel rnd p dc s hdr k rest Hp H. exact (proj2 (handshake_accept ks sha fuel rnd p dc s hdr k rest [] Hp H)). Qed.
+Proof.
+  intros ks sha fuel rnd p dc s hdr cep rest Hp H.
+  destruct (handshake_accept ks sha fuel rnd p dc s hdr cep rest [] Hp H) as (_ & _ & _ & R). exact R.
+Qed.
 Print Assumptions C18_prefix.
 
 (* "acceptable" spelled out: none of the reserved first bytes / words *)
@@ -100,11 +132,23 @@ Theorem C18_header_chunking :
 Proof. exact obfs2_read_full_chunking. Qed.
 Print Assumptions C18_header_chunking.
 
+(* ... composed with the handshake: a client announcing codec c (protocol = ObfuscatedTag of c)
+   is accepted with a tag whose replay selects c. *)
+Theorem C18_listener_session :
+  forall (ks : bytes -> bytes -> Z -> Z) (sha256 : bytes -> bytes) (fuel : nat) (rnd : bytes)
+         (c : Codec.codec) (dc : Z) (secret hdr : bytes) (cep : endpoint) (rest wire : bytes) (s : Codec.bytes),
+    c <> Codec.Full ->
+    client_handshake ks sha256 fuel rnd (Obfs2Listen.obf_tag c) dc secret = Ok (hdr, cep, rest) ->
+    exists p d sep, server_accept ks sha256 (hdr ++ wire) secret = Ok ((p, d), sep, wire) /\
+                    Codec.detect (replay_tag p ++ s) = Ok (c, s).
+Proof. exact Obfs2Listen.obf_session_detect. Qed.
+Print Assumptions C18_listener_session.
+
 (* ---- non-vacuity ---- *)
 Example C18_handshake_exists :
-  exists hdr k rest,
+  exists hdr cep rest,
     client_handshake (fun _ _ p => p mod 256) (fun x => x) 3
-      (239 :: repeat 1 63 ++ repeat 7 64 ++ [9]) [221; 221; 221; 221] (-2) [] = Ok (hdr, k, rest) /\ rest = [9].
+      (239 :: repeat 1 63 ++ repeat 7 64 ++ [9]) [221; 221; 221; 221] (-2) [] = Ok (hdr, cep, rest) /\ rest = [9].
 Proof. do 3 eexists. split; vm_compute; reflexivity. Qed.
 Example C18_streams_example :
   recv_all (fun _ _ p => p) [] [] 64 [([1 ; 2], false); ([], false); ([7], true)] <> [] /\
